@@ -384,6 +384,11 @@ def run_scenario(sc, strategy, max_steps=20000):
                 gids, delays, exp = [txn[1]], [0], [False]
             elif kind == 'multi_str':
                 gids, delays, exp = list(txn[1]), [0] * len(txn[1]), [True] * len(txn[1])
+            elif kind == 'multi_mix':   # plain strings and (cmd, expect_reply, delay) tuples in ONE transaction:
+                #                         a plain string always means (cmd, True, 0), whatever came before it
+                gids = [g for g, _, _, _ in txn[1]]
+                delays = [0 if as_str else int(round(d * 10)) for _, _, d, as_str in txn[1]]
+                exp = [True if as_str else bool(e) for _, e, _, as_str in txn[1]]
             elif kind == 'lines':     # ONE command of several lines: wait_before applies before every line, one reply (the last)
                 wb = int(round(float(sc.get('wait_before', 0)) * 10))
                 gids = list(txn[1])
@@ -399,6 +404,8 @@ def run_scenario(sc, strategy, max_steps=20000):
                     r = [io.communicate('\n'.join(cmd_text(g) for g in txn[1]))]
                 elif kind == 'multi_str':
                     r = io.multicomm([cmd_text(g) for g in txn[1]])
+                elif kind == 'multi_mix':
+                    r = io.multicomm([cmd_text(g) if as_str else (cmd_text(g), e, d) for g, e, d, as_str in txn[1]])
                 elif kind == 'comm':
                     r = [io.communicate(b'C%02d' % txn[1], RL)] if is_bytes else [io.communicate(cmd_text(txn[1]))]
                 elif kind == 'write':
